@@ -63,3 +63,9 @@ reg("C14", level="exploration", overlay="plain",
     budget={"quick": 120, "thorough": 900}, workers={"quick": 1, "thorough": 1},
     assumptions=["fields wider than 16 bits are exercised through every byte and adjacent byte pair on three base patterns, not through all values",
                  "padding bytes written by the NTS encoder are zero (checked) and ignored by the comparison"])
+
+reg("C19", level="model_checking", overlay="plain",
+    technique="stateless exploration of update histories on the real Pll against a reference phase machine, scripted clock",
+    level_text="Every update history inside the bounds runs on the real adjustments.Pll with a scripted clock recording Step/Adjust; after every update the actuation is compared with a four-phase reference machine written from the statement (when a Step is due and with what value, slew limit, duration, finiteness, restart on epoch change).",
+    budget={"quick": 120, "thorough": 900}, workers={"quick": 16, "thorough": 16},
+    assumptions=["offset MinInt64 is outside the alphabet (the double negation saturates; documented in DESIGN.md)", "clock readings are non-decreasing"])
